@@ -1053,6 +1053,8 @@ def rule_registered_once(chk, prog):
 def run(chk):
     prog = chk.load()
     chk.guard(rule_registered_once, chk, prog)
+    from .c10 import rule_junction_limits
+    chk.guard(rule_junction_limits, chk, prog)        # nudging keeps the ends of a hyperedge's connectors on the junction the improver moved
     chk.guard(rule_improver_lists_fresh, chk, prog)
     chk.guard(rule_shift_takes_in_terminal, chk, prog)
     chk.guard(rule_recommended_position, chk, prog)
